@@ -13,7 +13,7 @@ CLAIMS = {
    text="Theorems: every execution in which each operation takes effect at one instant between invocation and response (the owner-side step under the fragment lock) is "
         "linearizable w.r.t. the register specification, for any number of clients and interleavings (C01_commit_points_linearize); the linearizability checker that judges "
         "recorded histories is sound (C01_checker_sound). Executed: 2-5 concurrent clients over 6 entry paths on clusters (N,R) in {(3,2),(3,3),(2,1),(1,1)} with multi-table "
-        "fragments, plus writers racing back-to-back janitor passes; every per-key history is judged by the checker inside Coq. The sequential single-key semantics through "
+        "fragments, plus writers racing back-to-back janitor passes; every per-key history is judged by the checker inside Coq (conditional puts also with an expiry option). The sequential single-key semantics through "
         "every path (incl. overwrite-then-delete across tables) is C04/C15's differential.",
    note=TB + "that the Go fragment lock really makes the owner-side stretches atomic is not proved (runtime): it is what the concurrent histories attack; the checker's search is exhaustive below its fuel (= history length + 2).",
    ref="DESIGN.md 9 C01"),
@@ -46,8 +46,8 @@ CLAIMS = {
  "C07": dict(
    text="Theorems: atomic commit points imply linearizability w.r.t. the counter/swap specification (C07_commit_points_linearize), checker soundness, and the sum formula (final = "
         "initial + sum of deltas in any order). Executed: 2-4 concurrent callers through 7 entry points (embedded owner/non-owner/backup, cluster client, raw RESP, pipeline) in "
-        "Incr/Decr, GetPut and mixed modes; closed-form predicates (sum, single chain) and the linearizability checker inside Coq on every history. Incr on counters that cannot be read with ReadQuorum copies (quorum harness) must be refused (C07_incr_refused_when_unreadable).",
-   note=TB + "the owner-side per-key mutex makes Get;compute;Put atomic (Go runtime), attacked by the concurrent runs; IncrByFloat is only exercised sequentially (float text is an oracle).",
+        "Incr/Decr, GetPut and mixed modes; closed-form predicates (sum, single chain) and the linearizability checker inside Coq on every history. Incr on counters that cannot be read with ReadQuorum copies (quorum harness) must be refused (C07_incr_refused_when_unreadable). A fourth mode mixes Incr/Decr with IncrByFloat of integral amounts on one key (same sum rule, same checker).",
+   note=TB + "the owner-side per-key mutex makes Get;compute;Put atomic (Go runtime), attacked by the concurrent runs; IncrByFloat runs concurrently with integral amounts only (float text is an oracle).",
    ref="DESIGN.md 9 C07"),
  "C08": dict(
    text="Theorems over Model/DMap.v: Lock succeeds iff the key is free or its holder's timeout elapsed and otherwise changes nothing; at most one token holds a key; Unlock/Lease with a "
@@ -71,7 +71,7 @@ CLAIMS = {
    text="Theorems (all R, W, RQ, reachable subsets, copy layouts): a sync Put is acknowledged iff 1+reachable >= W and exactly the reachable holders store it; "
         "Get returns a value only with >= RQ copies and ErrReadQuorum when the key exists on too few reachable holders; below MemberCountQuorum every "
         "non-exempt command and NewDMap answer the cluster-quorum error and change nothing. Executed on real 3-4 member clusters over the full (R,W,RQ) grid "
-        "with every subset of unreachable backups (RESP gate) and below-quorum members on every run. Incr over the same copy layouts (the read half under the read quorum: an unreadable counter is refused, C07_incr_refused_when_unreadable).",
+        "with every subset of unreachable backups (RESP gate) and below-quorum members on every run. Incr over the same copy layouts (the read half under the read quorum: an unreadable counter is refused, C07_incr_refused_when_unreadable). Reads with ReadRepair on over every layout: result and every copy afterwards equal Model/Quorum.v cluster_get (the subject of C06_read_repair).",
    note=TB + "INTERNAL.NODE.UPDATEROUTING is exempt from the member-count precondition by design (stated in the theorem); a Get of a key that exists nowhere "
         "returns ErrReadQuorum when RQ>=2 (pinned by an upstream test, stated in C05_read_iff).",
    ref="DESIGN.md 9 C05, docs/DESIGN-C05-C06.md"),
@@ -86,20 +86,20 @@ CLAIMS = {
    text="Theorems: every parser of internal/protocol is total (never indexes past the argument vector, every option loop terminates within length+1 iterations) "
         "for every argument vector; mux+wrapper dispatch is total; handlers reject out-of-range partition ids before any dereference. Executed against the real "
         "parsers (in-process, recover+watchdog) on all vectors up to a bound over a 24-token alphabet and against a real member in a child process over TCP "
-        "(command vectors, crafted payloads, random byte streams) on every run. Stateful sequences include an atomic operation that fails on the stored value first: the following commands on that key must be answered.",
+        "(command vectors, crafted payloads, random byte streams) on every run. Stateful sequences include an atomic operation that fails on the stored value first: the following commands on that key must be answered; keys of 255..65536 bytes are stored or refused, then read, counted, scanned and deleted.",
    note=TB + "strconv float parsing is an oracle; ASCII case folding only; redcon's RESP reader is a dependency (open known finding: multibulk-count spin).",
    ref="DESIGN.md 9 C16, docs/DESIGN-C16.md"),
  "C17": dict(
    text="Theorems: entry encode/decode round trip for every well-formed entry; every integer width/signedness reads back equal through the RESP text codec and "
         "out-of-range text is rejected; bool/duration/bytes identity; byte-level table: get-after-put and get-after-put_raw return the entry, other hkeys unchanged, "
         "too-long keys and too-large entries are rejected leaving the table unchanged. Executed: encoder/scan differential, typed round trips through 4 client "
-        "paths with replication and after migration, boundary keys and entry sizes on every run. Batched pipelines (2-4 Put/GetPut per Exec), full iterations whose keys must be the stored keys byte for byte, and rejected writes under asynchronous replication (no copy anywhere).",
+        "paths with replication and after migration, boundary keys and entry sizes on every run. Batched pipelines (2-4 Put/GetPut per Exec), full iterations whose keys must be the stored keys byte for byte, and rejected writes under asynchronous replication (no copy anywhere). Reads with ReadRepair on over every layout of copies: the copy written to a holder is the entry that was read (compared with Model/Quorum.v cluster_get).",
    note=TB + "floats, time.Time and BinaryMarshaler are tested only (strconv/time are oracles).",
    ref="DESIGN.md 9 C17, docs/DESIGN-C17-C18.md"),
  "C18": dict(
    text="Theorems over a heap model (blocks and Go slice descriptors): for all runs mixing store operations and client writes, blocks reachable from returned "
         "handles and slab blocks are disjoint; a returned value never changes and writing into it never changes the store or other handles; Put arguments may be "
-        "reused. Executed on the real engine and clusters (embedded owner/non-owner, cluster client, GetPut, iterator, compaction, table recycling, migration). Clusters with asynchronous replication and reads of the backup copy itself are included.",
+        "reused. Executed on the real engine and clusters (embedded owner/non-owner, cluster client, GetPut, iterator, compaction, table recycling, migration). Clusters with asynchronous replication and reads of the backup copy itself are included; kept GetResponse objects are read again after later calls on the same handle.",
    note=TB + "Go's memory model (copy semantics of make/copy) is assumed; FutureGet.Result() called twice is not exercised.",
    ref="DESIGN.md 9 C18, docs/DESIGN-C17-C18.md"),
  "C09": dict(
@@ -107,7 +107,7 @@ CLAIMS = {
    note=TB + "real clocks are compared with a 40 ms margin (closer runs are discarded and counted); durations are multiples of 1 ms; MaxIdleDuration is C10's (no_idle hypothesis).",
    ref='DESIGN.md 9 C09'),
  "C19": dict(
-   text="Theorems over Model/DMap.v (state keyed by member, kind, DMap name, key): Destroy leaves no primary or backup copy of the DMap on any member, every key reads not-found and the DMap accepts new writes (C19_destroy_complete); no operation on DMap A changes any copy of a DMap with a different name, whatever the keys (C19_frame); eviction only removes invisible entries. Executed on real clusters of 1-3 members: pairs of DMaps incl. name+key concatenation collisions and A vs 'dmap.'+A, interleaved operations, Destroy through 4 paths, eviction passes; B is read and dumped after every step on A. Destroy after a fail-over and through a cluster client created before a join: no copy of any kind may be left on any member.",
+   text="Theorems over Model/DMap.v (state keyed by member, kind, DMap name, key): Destroy leaves no primary or backup copy of the DMap on any member, every key reads not-found and the DMap accepts new writes (C19_destroy_complete); no operation on DMap A changes any copy of a DMap with a different name, whatever the keys (C19_frame); eviction only removes invisible entries. Executed on real clusters of 1-3 members: pairs of DMaps incl. name+key concatenation collisions and A vs 'dmap.'+A, interleaved operations, Destroy through 4 paths, eviction passes; B is read and dumped after every step on A. Destroy after a fail-over and through a cluster client created before a join: no copy of any kind may be left on any member. DMaps whose names differ by an inner or leading 'dmap.' across a join, the migration and a Destroy.",
    note=TB + '64-bit hash collisions between different keys of one DMap are outside the property; the janitor race D22 is not modelled.',
    ref='DESIGN.md 9 C19'),
  "C11": dict(
@@ -127,7 +127,7 @@ CLAIMS = {
         "found on either, each once, and the whole iteration yields exactly the keys of all partitions without repetition "
         "(C12_iterator_exactly_once). Executed against the real kvstore on shaped histories (holes, recycled tables) with COUNT in "
         "{1,2,3,10,1000}, and against real 1-3 member clusters (cluster client and embedded iterators, COUNT/MATCH variants) where the "
-        "model has to reproduce the exact key sequence, on every run. Iterations kept open across compaction; stores forked from an engine instance of another table size (D47).",
+        "model has to reproduce the exact key sequence, on every run. Iterations kept open across compaction; stores forked from an engine instance of another table size (D47). Iterations between the routing update of a join and the migration it announces (membership harness, timers off).",
    note=TB + "the iterator theorem covers one primary and at most one replica owner per partition (stable cluster, ReplicaCount<=2); with two "
         "owners in one list the state machine as coded terminates only thanks to the periodic re-fetch of the routing table "
         "(C12_two_replica_owners_need_refetch), which is timing and not modelled: ReplicaCount 3 is judged by the predicate only; "
@@ -165,7 +165,7 @@ CLAIMS = {
         "with inuse = bytes of live records (superseded bytes are garbage on both write paths); Put allocates at most one table; compaction makes "
         "progress (a measure strictly decreases), terminates within 2*live+tables+3 calls and on completion no sealed table is above the threshold. "
         "Churn workloads on the real kvstore (Put and PutRaw paths, compaction once per 2T bytes) are compared with the model and with the closed-form "
-        "bound on allocated memory on every run. After the repair of D44 a table qualifies also when it holds garbage and no live byte: once compaction reports done every other table that holds garbage holds live bytes (C20_no_dead_table_after_compaction); the compaction worker's loop on a fragment ends whenever the fragment is closed (C20_worker_terminates; D45 = C20_worker_spun_on_closed_fragment_refuted). Also executed: churn with entries of two sizes (tables sealed far from full), and on 2-member clusters with 2 copies the member's real triggerCompaction after every two tables written (primary and backup copies against the bound) and racing DM.DESTROY.",
+        "bound on allocated memory on every run. After the repair of D44 a table qualifies also when it holds garbage and no live byte: once compaction reports done every other table that holds garbage holds live bytes (C20_no_dead_table_after_compaction); the compaction worker's loop on a fragment ends whenever the fragment is closed (C20_worker_terminates; D45 = C20_worker_spun_on_closed_fragment_refuted). Also executed: churn with entries of two sizes (tables sealed far from full), and on 2-member clusters with 2 copies the member's real triggerCompaction after every two tables written (primary and backup copies against the bound) and racing DM.DESTROY; and bursts of one-entry-per-table overwrites followed by silence with maxIdleTableTimeout 300 ms (every recycled table is released).",
    note=TB + "the closed-form bound on allocated memory is evaluated on the implementation (predicate), not yet proved; the bound length(tables)+1 on "
         "compaction calls is refuted by a witness (C20_compaction_terminates_refuted) and replaced by the weaker proved bound; cluster-level (backup) churn "
         "is covered through PutRaw at store level.",
